@@ -7,6 +7,7 @@ import LyModel.Valid.FullSaneB
 import LyModel.Valid.LemmasPerm
 import LyModel.Valid.FullUniq
 import LyModel.Valid.XpValid
+import LyModel.Valid.XpSpec
 /-! driver ops of component `valid` (C02, C07): see harness/api_val.c and harness/api_norm.c for the protocol -/
 namespace LyModel.Valid.Drv
 open LyModel LyModel.Tree
@@ -95,6 +96,15 @@ def handle (op : String) (args : List String) : String :=
         let ks := violations X (VOpts.ofNat on) (canon X.base (heightL f + 1) (freshL X.base f))
         "ok " ++ toString ks.eraseDups.length ++ " " ++ " ".intercalate (ks.eraseDups.map (·.name))
       | _, _ => "err BadTree"
+  | "specx", [dsl, xdsl, opts, dump] =>
+    -- `spec` with the XPath-dependent statements (`must`, leafref `require-instance`): `violationsX` (model only)
+    withX dsl xdsl fun X =>
+      match opts.toNat?, forestOfHex X.base dump, (Hex.dec xdsl).bind parseXCons with
+      | some on, some f, some C =>
+        let ks := violationsX X C (VOpts.ofNat on) (canon X.base (heightL f + 1) (freshL X.base f))
+        "ok " ++ toString ks.eraseDups.length ++ " " ++ " ".intercalate (ks.eraseDups.map (·.name))
+      | _, _, none => "err BadSchema"
+      | _, _, _ => "err BadTree"
   | "opsvariant", [dsl, xdsl] =>
     -- the all-state variant of the schema as DSL (flat table), and whether its tree view agrees with that table row by row
     withX dsl xdsl fun X =>
